@@ -28,7 +28,11 @@ RULE = ("every ordered pair of 13 region kinds (Box, Spheroid, extruded-polygon 
         "from a harness RNG keyed by (VERIF_SEED, pair, repetition); planar regions at z != 0 in "
         "most cases, 15% of parametric operands built lazily (random parameter) and sampled; "
         "probes = uniform in the joint box, snapped to the planes / to z = 0, oracle samples of "
-        "both operands and jittered copies, vertices of thin sets.  Non-trivial = neither operand "
+        "both operands and jittered copies, vertices of thin sets.  Plus, per repetition, 8 histories "
+        "(one shared region object meeting 3-4 partners in sequence, vertical extents 0.1...600, "
+        "each step judged on a fresh twin and on the shared object) and 20 containment cases "
+        "(convex containers with aspect up to 1:80, lower-dimensional inner regions whose measure "
+        "number exceeds the container's).  Non-trivial = neither operand "
         "trivial and the oracle finds a probe in both operands and a probe in exactly one; "
         "distinct = SHA-1 of the case JSON.")
 ASSUMPTIONS = [
@@ -43,6 +47,7 @@ ASSUMPTIONS = [
 ]
 
 QUICK_REPS, THOROUGH_REPS = 4, 40
+HISTORY_PER_REP, CONTAIN_PER_REP = 8, 20
 GENERIC = ("IntersectionRegion", "UnionRegion", "DifferenceRegion")
 
 
@@ -58,6 +63,19 @@ def make_case(seed, ka, kb, k, nprobe):
     rnd = random.Random(f"C16:{seed}:{ka}:{kb}:{k}")
     A, B = gen.gen_pair(ka, kb, rnd)
     return {"pair": [ka, kb], "A": A, "B": B, "seed": rnd.randrange(1 << 30), "nprobe": nprobe}
+
+
+def make_history_case(seed, k, nprobe):
+    rnd = random.Random(f"C16:history:{seed}:{k}")
+    shared, partners = gen.gen_history(rnd)
+    return {"mode": "history", "shared": shared, "partners": partners,
+            "seed": rnd.randrange(1 << 30), "nprobe": nprobe}
+
+
+def make_contain_case(seed, k):
+    rnd = random.Random(f"C16:contain:{seed}:{k}")
+    A, B = gen.gen_contained(rnd)
+    return {"mode": "contain", "A": A, "B": B, "seed": rnd.randrange(1 << 30)}
 
 
 # ------------------------------------------------------------------------------------------
@@ -100,7 +118,8 @@ class Ctx:
         self.seen = set()
         self.classes = set()
 
-    lazy_mode = False
+    tag = None  # ":lazy" / ":history": a twin of the same case was judged before; only failures
+    #             the twin did not show are reported, with the tag appended to the cell
     nfail = 0  # number of fail() calls, including the ones folded into an earlier signature
 
     def fail(self, sig, **detail):
@@ -111,9 +130,8 @@ class Ctx:
             sig = cell.replace(":wide-sector", "") + "|" + sym
         if sig in self.seen:
             return
-        if self.lazy_mode:
-            # the eager twin of this case has been judged already: report only what is new
-            sig = sig.replace("|", ":lazy|", 1)
+        if self.tag:
+            sig = sig.replace("|", self.tag + "|", 1)
             if sig in self.seen:
                 return
         self.seen.add(sig)
@@ -509,7 +527,7 @@ def check_binary(cx, op, A, B, oa, ob, fams, P, va, vb, band, rng, nsamp):
 
     # (c) bounding box of the result contains the members and the samples
     #     (an operand returned unchanged is covered by the unary checks)
-    same = R is A or R is B or cx.lazy_mode  # (the eager twin covers derived quantities)
+    same = R is A or R is B or cx.tag == ":lazy"  # (the eager twin covers derived quantities)
     if not trivial and not same:
         st, bb = cx.call(f"AABB-of-{cell}", lambda: R.AABB)
         if st == "ok":
@@ -702,7 +720,8 @@ def check_contains_region(cx, A, B, oa, ob, fams, band, rng):
     if oa.convex and np.isfinite(H).all() and (verdict(oa, H, band) == IN).all():
         cx.out.cls("containsRegion:contained")
         if not got:
-            cx.fail(f"{cell}|false-but-contained")
+            cx.fail(f"{cell}|false-but-contained", container_measure=oa.measure(),
+                    inner_measure=ob.measure(), dims=[oa.dim, ob.dim])
 
 
 # ------------------------------------------------------------------------------------------
@@ -711,6 +730,10 @@ def check_contains_region(cx, A, B, oa, ob, fams, band, rng):
 
 def judge(case):
     ro.selftest()
+    if case.get("mode") == "history":
+        return judge_history(case)
+    if case.get("mode") == "contain":
+        return judge_contain(case)
     out = core.Outcome()
     ka, kb = case["pair"]
     fams = (gen.FAMILY[ka], gen.FAMILY[kb])
@@ -764,9 +787,92 @@ def judge(case):
     if lazyA or lazyB:
         # the same operations on the lazily built operands (result sampled afterwards); only
         # failures the eager twins did not already show are reported, tagged `:lazy`
-        cx.lazy_mode = True
+        cx.tag = ":lazy"
         for op in ("intersect", "union", "difference"):
             check_binary(cx, op, A, B, oa, ob, fams, P, va, vb, band, rng, nsamp)
+    return out
+
+
+def hscale(o):
+    lo, hi = o.aabb()
+    d = [hi[i] - lo[i] for i in range(2)]
+    return float(np.hypot(*d)) if np.all(np.isfinite(d)) else 0.0
+
+
+def judge_history(case):
+    """Several operations in sequence on the SAME shared region object (different partners,
+    vertical extents differing by orders of magnitude); each step is first judged on a freshly
+    built twin of the shared region, then on the shared object itself."""
+    out = core.Outcome()
+    out.cls("mode:history", "shared:" + case["shared"]["kind"])
+    try:
+        osh = ro.from_spec(case["shared"])
+        obs = [ro.from_spec(p) for p in case["partners"]]
+    except ro.OracleError as e:
+        raise core.HarnessError(f"generator produced an invalid spec: {e}")
+    seed = case["seed"]
+    random.seed(seed)
+    np.random.seed(seed % (1 << 32))
+    rng = np.random.default_rng(seed)
+    cx = Ctx(out)
+    ks = case["shared"]["kind"]
+    st, S = cx.call(f"construct:{ks}", lambda: gen.build(case["shared"]))
+    if st != "ok":
+        return out
+    partial = 0
+    for step, (spec, ob) in enumerate(zip(case["partners"], obs)):
+        kb = spec["kind"]
+        st, B = cx.call(f"construct:{kb}", lambda: gen.build(spec))
+        st2, S0 = cx.call(f"construct:{ks}", lambda: gen.build(case["shared"]))
+        if st != "ok" or st2 != "ok":
+            return out
+        band = 2e-3 * max(hscale(osh), hscale(ob), 1.0)
+        P = make_probes(osh, ob, rng, case["nprobe"], band)
+        vs, vb = verdict(osh, P, band), verdict(ob, P, band)
+        both = int(((vs == IN) & (vb == IN)).sum())
+        one = int(((vs == IN) & (vb == OUT)).sum() + ((vs == OUT) & (vb == IN)).sum())
+        partial += bool(both and one)
+        lo, hi = ob.aabb()
+        out.cls("partner-height:%s" % ("<1" if hi[2] - lo[2] < 1 else "<30" if hi[2] - lo[2] < 30 else ">=30"))
+        fs, fb = gen.FAMILY[ks], gen.FAMILY[kb]
+        for tag, shared in ((None, S0), (":history", S)):
+            cx.tag = tag
+            for op in ("intersect", "difference", "union"):
+                check_binary(cx, op, B, shared, ob, osh, (fb, fs), P, vb, vs, band, rng, 6)
+                check_binary(cx, op, shared, B, osh, ob, (fs, fb), P, vs, vb, band, rng, 6)
+            check_intersects(cx, B, shared, ob, osh, (kb, ks), P, vb, vs, band)
+            check_intersects(cx, shared, B, osh, ob, (ks, kb), P, vs, vb, band)
+        cx.tag = None
+    out.nontrivial = partial >= 2
+    return out
+
+
+def judge_contain(case):
+    """A convex, often very thin container and a region placed inside it (or sticking out)."""
+    out = core.Outcome()
+    out.cls("mode:contain")
+    try:
+        oa, ob = ro.from_spec(case["A"]), ro.from_spec(case["B"])
+    except ro.OracleError as e:
+        raise core.HarnessError(f"generator produced an invalid spec: {e}")
+    ka, kb = case["A"]["kind"], case["B"]["kind"]
+    seed = case["seed"]
+    random.seed(seed)
+    np.random.seed(seed % (1 << 32))
+    rng = np.random.default_rng(seed)
+    cx = Ctx(out)
+    st, A = cx.call(f"construct:{ka}", lambda: gen.build(case["A"]))
+    st2, B = cx.call(f"construct:{kb}", lambda: gen.build(case["B"]))
+    if st != "ok" or st2 != "ok":
+        return out
+    band = 1e-3 * max([x for x in (oa.scale, ob.scale) if np.isfinite(x)] + [1.0])
+    ma, mb = oa.measure(), ob.measure()
+    if ob.dim < oa.dim and np.isfinite(ma) and mb > ma:
+        out.cls("inner-measure-number-exceeds-container")
+    out.cls(f"contain:{ka}⊇{kb}")
+    check_contains_region(cx, A, B, oa, ob, (gen.FAMILY[ka], gen.FAMILY[kb]), band, rng)
+    out.nontrivial = any(c in ("containsRegion:contained", "containsRegion:not-contained")
+                         for c in out.classes)
     return out
 
 
@@ -790,16 +896,26 @@ def run_shard(shard, tier):
         raise core.HarnessError(str(e))
     col = core.Collector(PROP, shard["id"])
     pairs = all_pairs()
-    todo = [(i, r) for r in range(shard["reps"]) for i in range(len(pairs))]
-    for n, (i, r) in enumerate(todo):
+    todo = [("pair", i, r) for r in range(shard["reps"]) for i in range(len(pairs))]
+    todo += [("history", k, 0) for k in range(HISTORY_PER_REP * shard["reps"])]
+    todo += [("contain", k, 0) for k in range(CONTAIN_PER_REP * shard["reps"])]
+    for n, (mode, i, r) in enumerate(todo):
         if n % shard["of"] != shard["k"]:
             continue
-        ka, kb = pairs[i]
-        case = make_case(shard["seed"], ka, kb, r, shard["nprobe"])
+        if mode == "pair":
+            ka, kb = pairs[i]
+            case = make_case(shard["seed"], ka, kb, r, shard["nprobe"])
+            label = f"pair:{ka}×{kb}"
+        elif mode == "history":
+            case = make_history_case(shard["seed"], i, shard["nprobe"])
+            label = "mode:history"
+        else:
+            case = make_contain_case(shard["seed"], i)
+            label = "mode:contain"
         try:
-            with core.time_limit(120):
+            with core.time_limit(180):
                 o = judge(case)
         except core.CaseTimeout:
-            o = core.Outcome(inconclusive=True, classes=["timeout", f"pair:{ka}×{kb}"])
+            o = core.Outcome(inconclusive=True, classes=["timeout", label])
         col.add(case, o)
     return col.result()
